@@ -324,3 +324,29 @@ PROPS["C11"] = dict(
     assumptions=["views that share iteration state (the same Range, Map or Zip below them) are not walked side by "
                  "side in one Zip", "Range and Slice parameters stay within +-50"],
 )
+
+PROPS["C12"] = dict(
+    harness="c12_faults.c", level="fault_enumeration",
+    technique="runtime fault enumeration: table of object kind x operation x invalid-argument kind x size; canonical "
+              "dump before/after, documented-exception oracle, probe-element ledger, model agreement afterwards; "
+              "ASan+UBSan",
+    level_text="Fault enumeration: every row of a fixed table (Array/List/Tuple with Int and probe elements, Table/"
+               "Tree with Int and String keys, String, Range, Int, Float, NULL objects) x (get/set/pop_at/push_at "
+               "with index len, len+1, -len-1, +-1000 beyond, INT64_MAX, INT64_MIN; pop from empty; absent key/"
+               "element/substring; wrong-typed and NULL keys/values/arguments; unimplemented class or member; too "
+               "few format arguments; resize that cannot be honoured) at sizes 0,1,2,7,64, then random sizes; each "
+               "fault must raise an exception its class documents, leave the canonical dump and the live-element "
+               "count unchanged, and the object must agree with its model over 30 further valid operations.",
+    level_note="Where the documentation names no specific exception the check accepts the set the code base uses for "
+               "that fault class (e.g. wrong type: TypeError/ValueError/ClassError). Views other than Range and File "
+               "faults (C20) are not in the table.",
+    quick=[("asan", 16, 40)],
+    thorough=[("asan", 16, 1500), ("plain", 16, 4000)],
+    floors={"quick": {"distinct_faults_in_table": 300, "sequence_objects_faulted": 100, "map_objects_faulted": 100,
+                      "string_objects_faulted": 50, "range_objects_faulted": 50, "scalar_objects_faulted": 1}},
+    exhaustive=False,
+    rule="evaluation = one fault (object kind, operation, invalid argument, size) executed with all oracles; the "
+         "fixed table is run completely by shard 0, generated cases repeat it at random sizes/contents; distinct = "
+         "hash of the case description; non-trivial = every case (each runs >= 5 faults)",
+    assumptions=["a Tuple holds arbitrary pointers, so wrong-typed / NULL elements are not faults for Tuple"],
+)
